@@ -22,6 +22,7 @@ import (
 	"bytes"
 	"context"
 	"crypto/sha256"
+	"encoding/binary"
 	"encoding/hex"
 	"errors"
 	"fmt"
@@ -237,7 +238,48 @@ func (v *verifC20ChainView) Stop() error  { return nil }
 // Wire helpers and the reference predicate.
 // ---------------------------------------------------------------------------
 
+// verifC20Wire returns the wire bytes of a message as a peer would have sent
+// them. channel_update is encoded by the harness itself (fixed BOLT-7 layout
+// followed by the raw extra TLV bytes): lnwire's ChannelUpdate1.Encode
+// re-packs ExtraOpaqueData from the records it knows and thereby *mutates the
+// message and drops unknown TLVs*, so it can neither serve as the reference
+// encoding of what was signed nor be called on a message before lnd sees it.
 func verifC20Wire(m lnwire.Message) []byte {
+	if u, ok := m.(*lnwire.ChannelUpdate1); ok {
+		return verifC20WireCU(u)
+	}
+	var b bytes.Buffer
+	if _, err := lnwire.WriteMessage(&b, m, 0); err != nil {
+		return nil
+	}
+	return b.Bytes()
+}
+
+func verifC20WireCU(u *lnwire.ChannelUpdate1) []byte {
+	b := make([]byte, 0, 160+len(u.ExtraOpaqueData))
+	b = append(b, 0x01, 0x02)
+	b = append(b, u.Signature.RawBytes()...)
+	b = append(b, u.ChainHash[:]...)
+	b = append(b, byte(u.ShortChannelID.BlockHeight>>16), byte(u.ShortChannelID.BlockHeight>>8),
+		byte(u.ShortChannelID.BlockHeight), byte(u.ShortChannelID.TxIndex>>16),
+		byte(u.ShortChannelID.TxIndex>>8), byte(u.ShortChannelID.TxIndex),
+		byte(u.ShortChannelID.TxPosition>>8), byte(u.ShortChannelID.TxPosition))
+	b = binary.BigEndian.AppendUint32(b, u.Timestamp)
+	b = append(b, byte(u.MessageFlags), byte(u.ChannelFlags))
+	b = binary.BigEndian.AppendUint16(b, u.TimeLockDelta)
+	b = binary.BigEndian.AppendUint64(b, uint64(u.HtlcMinimumMsat))
+	b = binary.BigEndian.AppendUint32(b, u.BaseFee)
+	b = binary.BigEndian.AppendUint32(b, u.FeeRate)
+	if u.MessageFlags&lnwire.ChanUpdateRequiredMaxHtlc != 0 {
+		b = binary.BigEndian.AppendUint64(b, uint64(u.HtlcMaximumMsat))
+	}
+	b = append(b, u.ExtraOpaqueData...)
+	return b
+}
+
+// verifC20PeerEncode is what a peer connection does with a message handed to
+// Broadcast: lnwire.WriteMessage on the object itself.
+func verifC20PeerEncode(m lnwire.Message) []byte {
 	var b bytes.Buffer
 	if _, err := lnwire.WriteMessage(&b, m, 0); err != nil {
 		return nil
@@ -859,7 +901,7 @@ func verifC20NewCtx(t *testing.T, vc *verifCtx, r *verifRng, chain *verifC20Chai
 			defer c.bmu.Unlock()
 			for _, m := range msgs {
 				c.blog = append(c.blog, verifC20Bcast{
-					Key:  hex.EncodeToString(verifC20Wire(m)),
+					Key:  hex.EncodeToString(verifC20PeerEncode(m)),
 					Type: m.MsgType().String(),
 				})
 			}
@@ -1636,19 +1678,30 @@ func (s *verifC20Scn) genReplay() (string, lnwire.Message) {
 	if m == nil {
 		return s.genNA()
 	}
-	return "replay." + rec.Label, m
+	return "replay." + verifC20LabelClass(rec.Label), m
 }
 
 // ---------------------------------------------------------------------------
 // The monitor: submit one message / reveal blocks, judge.
 // ---------------------------------------------------------------------------
 
+// verifC20ReencodeSeen counts occurrences of the one fingerprint that the
+// unchanged tree produces (see checkBroadcasts); only the first few are
+// emitted as violation records and they do not count towards the
+// "too many violations, stop the scenario" threshold.
+var verifC20ReencodeSeen int
+
 type verifC20Allowed struct {
 	why   string
 	cands []*lnwire.ChannelUpdate1
 }
 
-func verifC20LabelClass(l string) string { return strings.TrimPrefix(l, "replay.") }
+func verifC20LabelClass(l string) string {
+	for strings.HasPrefix(l, "replay.") {
+		l = strings.TrimPrefix(l, "replay.")
+	}
+	return l
+}
 
 func verifC20MsgKind(m lnwire.Message) string {
 	switch m.(type) {
@@ -1860,6 +1913,50 @@ func (s *verifC20Scn) checkBroadcasts(label string) {
 		for _, rec := range c.recs {
 			if rec.Hex == b.Key {
 				src = verifC20LabelClass(rec.Label)
+			}
+		}
+		if src == "never-submitted" {
+			// Is it an accepted channel_update that lnd re-encoded into
+			// different bytes (same signature, different signed content)?
+			if raw, err := hex.DecodeString(b.Key); err == nil && len(raw) > 66 && raw[0] == 1 && raw[1] == 2 {
+				for _, rec := range c.recs {
+					u, ok := rec.Msg.(*lnwire.ChannelUpdate1)
+					if !ok || !c.justified[rec.Hex] {
+						continue
+					}
+					orig, _ := hex.DecodeString(rec.Hex)
+					if len(orig) > 66 && bytes.Equal(orig[2:66], raw[2:66]) {
+						d1 := sha256.Sum256(raw[66:])
+						d2 := sha256.Sum256(d1[:])
+						okSig := false
+						if ch := s.snap.chans[u.ShortChannelID.ToUint64()]; ch != nil {
+							k := ch.N1[:]
+							if u.ChannelFlags&lnwire.ChanUpdateDirection == 1 {
+								k = ch.N2[:]
+							}
+							okSig = verifC20SigOK(raw[2:66], d2[:], k)
+						}
+						s.vc.Count("relayed_update_bytes_differ", 1)
+						verifC20ReencodeSeen++
+						if verifC20ReencodeSeen > 3 {
+							// same fingerprint; keep the per-process
+							// violation budget for other keys.
+							src = ""
+							break
+						}
+						s.vc.Violation("not_relayed_unless_valid",
+							"ChannelUpdate:accepted-update-relayed-with-different-signed-bytes",
+							fmt.Sprintf("after step %q: lnd accepted the channel_update of step %d (%s) and relayed it, but the bytes handed to peers differ from the bytes that were signed and accepted (signature of relayed bytes verifies under the direction's node key: %v)\naccepted=%s\nrelayed =%s",
+								label, rec.Idx, rec.Label, okSig, rec.Hex, b.Key),
+							s.witness(map[string]any{"accepted": rec.Hex, "relayed": b.Key,
+								"relayed_signature_valid": okSig, "origin_step": rec.Idx}))
+						src = ""
+						break
+					}
+				}
+				if src == "" {
+					continue
+				}
 			}
 		}
 		s.vc.Violation("not_relayed_unless_valid",
@@ -2082,6 +2179,13 @@ func (s *verifC20Scn) mine(idx int) {
 	vc.Sig(fmt.Sprintf("mine|n%d|c%v", len(cs), len(entry["changed"].([]string)) > 0))
 }
 
+func verifC20Min(a, b int) int {
+	if a < b {
+		return a
+	}
+	return b
+}
+
 func verifC20RunScenario(t *testing.T, vc *verifCtx, r *verifRng, steps int) {
 	var keys, sk [4]*btcec.PrivateKey
 	for i := range keys {
@@ -2122,7 +2226,7 @@ func verifC20RunScenario(t *testing.T, vc *verifCtx, r *verifRng, steps int) {
 		forceAt = 0
 	}
 	for i := 0; i < steps; i++ {
-		if vc.Violations() > 20 {
+		if vc.Violations()-verifC20Min(verifC20ReencodeSeen, 3) > 20 {
 			return
 		}
 		if i == forceAt && !s.mainAnnounced {
@@ -2154,7 +2258,7 @@ func verifC20RunScenario(t *testing.T, vc *verifCtx, r *verifRng, steps int) {
 	c.waitBroadcast(c.quiesce())
 	s.checkBroadcasts("end")
 	vc.Count("scenarios", 1)
-	if vc.Violations() == 0 && len(s.log) > 0 {
+	if vc.Violations()-verifC20Min(verifC20ReencodeSeen, 3) == 0 && len(s.log) > 0 {
 		n := len(s.log)
 		if n > 6 {
 			n = 6
@@ -2221,6 +2325,25 @@ func verifC20ProbeV2(t *testing.T, vc *verifCtx) {
 func TestVerifC20(t *testing.T) {
 	vc := verifStart(t, "C20", "gossip")
 	defer vc.Finish()
+
+	// Harness self-check: the hand-written channel_update encoder agrees with
+	// lnwire on a message without unknown TLVs.
+	{
+		r := vc.Rng(1 << 29)
+		u := &lnwire.ChannelUpdate1{
+			ChainHash:      *chaincfg.MainNetParams.GenesisHash,
+			ShortChannelID: lnwire.ShortChannelID{BlockHeight: 0x010203, TxIndex: 0x040506, TxPosition: 0x0708},
+			Timestamp:      0x11223344, MessageFlags: lnwire.ChanUpdateRequiredMaxHtlc,
+			ChannelFlags: 1, TimeLockDelta: 0x99aa, HtlcMinimumMsat: 0x0102030405060708,
+			BaseFee: 0x0a0b0c0d, FeeRate: 0x01020304, HtlcMaximumMsat: 0x1112131415161718,
+		}
+		verifC20SignCU(u, verifC20Key(r))
+		cp := *u
+		if !bytes.Equal(verifC20WireCU(u), verifC20PeerEncode(&cp)) {
+			t.Fatalf("C20 harness: channel_update encoder disagrees with lnwire:\n%x\n%x",
+				verifC20WireCU(u), verifC20PeerEncode(&cp))
+		}
+	}
 
 	const steps = 40
 	total := vc.N(256, 16000)
